@@ -228,6 +228,95 @@ Section Sem.
     rewrite Hw. constructor.
   Qed.
 
+  (* ---- second static check: an attribute is only ever bound to a buffer that the program allocated or
+     that some attribute already referred to before the call - never to a buffer that only the CALLER
+     holds.  cl v = "v certainly refers to such a buffer" *)
+  Fixpoint noalias (p : list prim) (cl : var -> bool) : bool :=
+    match p with
+    | [] => true
+    | Alias d s :: t => noalias t (upd cl d (cl s))
+    | New d _ _ :: t => noalias t (upd cl d true)
+    | Write _ _ _ :: t => noalias t cl
+    | Load d _ :: t => noalias t (upd cl d true)
+    | Store _ s :: t => cl s && noalias t cl
+    | Del _ :: t => noalias t cl
+    | Ret _ :: t => noalias t cl
+    | Raise :: _ => true
+    end.
+  Definition noalias0 (p : list prim) : bool := noalias p nofresh.
+
+  Definition okcell (n0 : nat) (att0 : attr -> option cid) (c : cid) : Prop :=
+    n0 <= c \/ exists a', att0 a' = Some c.
+
+  Definition ainv (n0 : nat) (att0 : attr -> option cid) (st : state) (cl : var -> bool) : Prop :=
+    n0 <= length (heap st)
+    /\ (forall v c, cl v = true -> loc st v = Some c -> okcell n0 att0 c)
+    /\ (forall a c, att st a = Some c -> okcell n0 att0 c).
+
+  Lemma upd_eq {A} (f : nat -> A) k v x : upd f k v x = if x =? k then v else f x.
+  Proof. reflexivity. Qed.
+
+  Lemma noalias_gen n0 att0 p : forall st cl,
+    noalias p cl = true -> ainv n0 att0 st cl ->
+    forall a c, att (run p st) a = Some c -> okcell n0 att0 c.
+  Proof.
+    induction p as [|x t IH]; intros st cl Hs (Hn & Hl & Ha).
+    - simpl. exact Ha.
+    - destruct x as [d s|d op ss|d op ss|d a0|a0 s|a0|s|]; simpl in Hs.
+      + (* Alias *) change (run (Alias d s :: t) st) with (run t (step (Alias d s) st)).
+        apply (IH _ _ Hs). split; [exact Hn|split; [|exact Ha]].
+        intros v c Hv Hc. change (loc (step (Alias d s) st) v) with (upd (loc st) d (loc st s) v) in Hc.
+        rewrite upd_eq in Hv; rewrite upd_eq in Hc. destruct (v =? d); eapply Hl; eauto.
+      + (* New *) change (run (New d op ss :: t) st) with (run t (step (New d op ss) st)).
+        apply (IH _ _ Hs). split; [simpl; rewrite app_length; simpl; lia|split; [|exact Ha]].
+        intros v c Hv Hc.
+        change (loc (step (New d op ss) st) v) with (upd (loc st) d (Some (length (heap st))) v) in Hc.
+        rewrite upd_eq in Hv; rewrite upd_eq in Hc. destruct (v =? d).
+        * injection Hc as <-. left. exact Hn.
+        * eapply Hl; eauto.
+      + (* Write *) change (run (Write d op ss :: t) st) with (run t (step (Write d op ss) st)).
+        apply (IH _ _ Hs). simpl step.
+        destruct (loc st d) as [c0|]; [destruct (nth_error (heap st) c0)|]; simpl.
+        * split; [cbn [heap]; rewrite set_nth_length; exact Hn|split; [exact Hl|exact Ha]].
+        * split; [exact Hn|split; [exact Hl|exact Ha]].
+        * split; [exact Hn|split; [exact Hl|exact Ha]].
+      + (* Load *) change (run (Load d a0 :: t) st) with (run t (step (Load d a0) st)).
+        apply (IH _ _ Hs). split; [exact Hn|split; [|exact Ha]].
+        intros v c Hv Hc. change (loc (step (Load d a0) st) v) with (upd (loc st) d (att st a0) v) in Hc.
+        rewrite upd_eq in Hv; rewrite upd_eq in Hc. destruct (v =? d).
+        * eapply Ha; eauto.
+        * eapply Hl; eauto.
+      + (* Store *) apply andb_true_iff in Hs. destruct Hs as (Hc0 & Hs).
+        change (run (Store a0 s :: t) st) with (run t (step (Store a0 s) st)).
+        apply (IH _ _ Hs). split; [exact Hn|split; [exact Hl|]].
+        intros b c Hb. change (att (step (Store a0 s) st) b) with (upd (att st) a0 (loc st s) b) in Hb.
+        rewrite upd_eq in Hb. destruct (b =? a0).
+        * eapply Hl; eauto.
+        * eapply Ha; eauto.
+      + (* Del *) change (run (Del a0 :: t) st) with (run t (step (Del a0) st)).
+        apply (IH _ _ Hs). split; [exact Hn|split; [exact Hl|]].
+        intros b c Hb. change (att (step (Del a0) st) b) with (upd (att st) a0 None b) in Hb.
+        rewrite upd_eq in Hb. destruct (b =? a0).
+        * discriminate.
+        * eapply Ha; eauto.
+      + (* Ret *) change (run (Ret s :: t) st) with (run t (step (Ret s) st)).
+        apply (IH _ _ Hs). split; [exact Hn|split; [exact Hl|exact Ha]].
+      + (* Raise *) simpl. exact Ha.
+  Qed.
+
+  (* NO CALLER ALIAS: after a program that passes the check, every attribute refers to a buffer allocated by
+     the program or to a buffer some attribute referred to before - never to an argument buffer *)
+  Theorem run_noalias p st :
+    noalias0 p = true ->
+    forall a c, att (run p st) a = Some c ->
+      length (heap st) <= c \/ exists a', att st a' = Some c.
+  Proof.
+    intros Hs. apply (noalias_gen (length (heap st)) (att st) p st nofresh Hs).
+    split; [lia|split].
+    - intros v c Hv. discriminate.
+    - intros a c Hc. right. exists a. exact Hc.
+  Qed.
+
   (* ---- histories: a sequence of calls on one object.  Between calls the caller may allocate arrays
      (extra) and binds the arguments of the next call to ANY buffers (also to results of earlier calls) *)
   Record call := mkcall { c_prog : list prim; c_args : var -> option cid; c_extra : list V }.
